@@ -28,7 +28,7 @@ RECS = ['float', 'int', 'utpm11', 'utpm32']
 
 def cases(tier, seed):
     out = []
-    reps = 2 if tier == 'quick' else 40
+    reps = 2 if tier == 'quick' else 100
     for rep in range(reps):
         for N in (1, 2, 3, 5):
             for M in (1, N, 2 if N != 2 else 4):
@@ -37,7 +37,7 @@ def cases(tier, seed):
     for (name, shape, dom, f) in vector_programs():
         for rep in range(1 if tier == 'quick' else 12):
             out.append({'kind': 'prog', 'seed': case_seed('C04', seed, name, rep), 'params': {'prog': name, 'rec': RECS[(rep + len(name)) % 4]}})
-    for i in range(60 if tier == 'quick' else 6000):
+    for i in range(60 if tier == 'quick' else 20000):
         out.append({'kind': 'prog', 'seed': case_seed('C04', seed, 'comp', i), 'params': {'prog': 'comp', 'rec': RECS[i % 4]}})
     return out
 
